@@ -11,7 +11,8 @@ func FilterTG(p *prog.Program, log []Rec) []Rec {
 	for _, r := range log {
 		switch r.Ev {
 		case "init", "started", "req", "ans", "again", "error", "cease", "fin", "wait", "timeout", "blocked",
-			"observed", "deliver", "delivered", "cancel", "infra", "other", "cand", "ansc", "crash", "determination":
+			"observed", "deliver", "deliverx", "delivered", "cancel", "infra", "other", "cand", "ansc", "crash", "determination",
+			"waitret", "tracerdone", "subclosed", "census":
 			out = append(out, r)
 		case "visit":
 			// arrival at intermediate catch events only (boundary listeners
